@@ -135,7 +135,19 @@ def run(tier):
                     return ("converged", False)
             if nm == "isfinite":
                 return ("finite", False)
+            if nm == "checkConvergence":
+                return ("converged", False)
             return None
+
+        def direct_on_error(cond, callee_name):
+            """the condition contains a direct call callee_name(error) on the residual-norm variable."""
+            for x in f.walk(cond):
+                m = f.stmts[x]
+                if m["k"] in ("CallExpr", "CXXMemberCallExpr") and (m.get("callee") or "").rsplit("::", 1)[-1] == callee_name and m.get("args"):
+                    an = f.stmts[f.strip(m["args"][0])]
+                    if var_of.get(an.get("declId")) == "error":
+                        return True
+            return False
         bad = []
         good = []
         r5bad = []
@@ -208,6 +220,13 @@ def run(tier):
                 return ()
             if R == "pending" and fx.get("computeResidual") is not None:
                 R = "ok" if fx["computeResidual"] else "failed"
+            old = dict(facts)
+            if b.cond is not None:
+                # tests written directly on the calls (no temporaries): bind them to the current residual evaluation
+                if "finite" in fx and "finite" not in old and direct_on_error(b.cond, "isfinite"):
+                    Fv = E
+                if "converged" in fx and "converged" not in old and direct_on_error(b.cond, "checkConvergence"):
+                    Cv = E
             if fx.get("computeNewCorrection") is False:
                 ncf = True
             if fx.get("computeNewCorrection") is True:
@@ -230,6 +249,25 @@ def run(tier):
         else:
             rep.ok("%s: no write to the unknowns after a failed computeNewCorrection()" % short(f), sample=False)
 
+    # ---------------- R6 customisation points are reached through the child (CRTP): a call through 'this' binds to the
+    # base-class default and silently ignores the criterion / hooks supplied by the derived class
+    for f in [g for g in funcs if g.qname.startswith(BASE + "<") and g.qname.rsplit("::", 1)[-1] in ("solveNonLinearSystem", "solveNonLinearSystem2")]:
+        for s_, n in f.stmts.items():
+            if n["k"] != "CXXMemberCallExpr":
+                continue
+            cls = n.get("calleeClass") or ""
+            if not cls.startswith("tfel::math::Tiny"):
+                continue
+            rep.count("hook call sites in the core loops")
+            o = f.stmts[f.strip(n.get("obj"))] if n.get("obj") else {}
+            nm = (n.get("callee") or "").rsplit("::", 1)[-1]
+            if o.get("k") == "CXXThisExpr":
+                rep.fail("CRTP-DISPATCH@%s#%s" % (f.qname.rsplit("::", 1)[-1], nm),
+                         "%s: %s calls %s through 'this': the call binds to TinyNonLinearSolverBase's default and ignores the version "
+                         "supplied by the derived solver (e.g. a user convergence criterion), so success can be reported at a point that "
+                         "does not satisfy the solver's own criterion" % (rel(f.short_loc(s_)), short(f), nm))
+            else:
+                rep.ok("%s: %s is called through the child" % (short(f), nm), sample=False)
     # ---------------- R3 on solveNonLinearSystem
     s1 = [f for f in funcs if f.qname.startswith(BASE + "<") and f.qname.endswith(">::solveNonLinearSystem")]
     for f in s1:
@@ -346,6 +384,7 @@ def run(tier):
     rep.floor("instantiations of solveNonLinearSystem", 6)
     rep.floor("increments of iter", 12)
     rep.floor("writers of zeros", 13)
+    rep.floor("hook call sites in the core loops", 100)
     rep.assumptions += ["the residual and the hooks of a derived behaviour are opaque; a hook overriding processNewCorrection / "
                         "processNewEstimate in user code could write zeros: only the hooks defined by the library are analysed",
                         "entry of solveNonLinearSystem2 with iter != iterMax is established at its in-library call sites",
